@@ -392,10 +392,12 @@ def probe_rodded(res, reg, dz, h_gap, t_gap, adiabatic, key, tdep,
         sv.restore()
 
 
-def probe_unrodded(res, reg, dz, h_gap, adiabatic, key, tdep):
+def probe_unrodded(res, reg, dz, h_gap, adiabatic, key, tdep,
+                   eval_temps=None):
     sv = Saved(reg)
     six = (reg.model == '6node')
     T0 = float(np.mean(sv.temp['coolant_int']))
+    T_state = T0
     nn = 6 if six else 1
     hg = np.array(h_gap, dtype=float, copy=True)
     eps = 1.0 if not tdep else 1e-3
@@ -414,16 +416,14 @@ def probe_unrodded(res, reg, dz, h_gap, adiabatic, key, tdep):
             dT = reg._calc_coolant_temp(dz, {'refl': 0.0}, adiabatic)
         return reg.temp['coolant_int'] + dT
 
-    try:
-        # six-node model refreshes its own parameters inside the update
+    inputs = [('node', i) for i in range(nn)]
+    if not adiabatic:
+        inputs += [('wall', c) for c in range(6)]
+
+    def scan():
         base = np.array(evaluate(), copy=True)
-        res.close('W_zero_power_invariance', float(np.max(np.abs(base - T0))),
-                  T0, 1e-12, 'uniform state is not a fixed point', key)
         rowsum = np.zeros(nn)
         minw = 0.0
-        inputs = [('node', i) for i in range(nn)]
-        if not adiabatic:
-            inputs += [('wall', c) for c in range(6)]
         diag = []
         for kind, idx in inputs:
             col = (np.array(evaluate(kind, idx), copy=True) - base) / eps
@@ -431,13 +431,47 @@ def probe_unrodded(res, reg, dz, h_gap, adiabatic, key, tdep):
             if kind == 'node':
                 diag.append(col[idx])
             minw = min(minw, float(np.min(col)))
+        return base, rowsum, minw, diag
+
+    try:
+        # six-node model refreshes its own parameters inside the update
+        base, rowsum, minw, diag = scan()
+        res.close('W_zero_power_invariance', float(np.max(np.abs(base - T0))),
+                  T0, 1e-12, 'uniform state is not a fixed point', key)
         k2 = dict(key, region=reg.model, adiabatic=bool(adiabatic),
                   mratio=float(reg.mratio),
                   conv_approx=bool(reg._conv_approx))
-        res.check('W_nonneg_weights', minw >= -(WTOL if not tdep else 1e-7),
+        tol = WTOL if not tdep else 1e-7
+        minw_ev = []
+        if minw < -tol and tdep and eval_temps:
+            # the same operator with coolant (and, under the low-flow
+            # approximation, wall) properties at the two temperatures at
+            # which DASSH evaluates this region's limit (see probe_rodded)
+            td_now = float(reg.duct.temperature)
+            try:
+                for T_ev in eval_temps:
+                    T0 = float(T_ev)
+                    with drive.quiet():
+                        reg._update_coolant_params(T0,
+                                                   use_mat_tracker=False)
+                        if reg._conv_approx:
+                            reg.duct.update(T0)
+                    minw_ev.append(float(scan()[2]))
+            finally:
+                T0 = T_state
+                with drive.quiet():
+                    reg.duct.update(td_now)
+            if min(minw_ev) >= -tol:
+                k2['mech'] = ('lowfid_limit_lower_at_actual_state_than_at_'
+                              'evaluation_temps')
+        res.check('W_nonneg_weights', minw >= -tol,
                   'negative weight %.3e in the %s low-fidelity operator'
-                  % (minw, reg.model), k2, {'min_weight': minw, 'dz': dz,
-                                            'selfweight': float(min(diag))})
+                  % (minw, reg.model), k2,
+                  {'min_weight': minw, 'dz': dz,
+                   'selfweight': float(min(diag)),
+                   'state_temperature': T_state,
+                   'evaluation_temps': list(eval_temps or []),
+                   'min_weight_at_evaluation_temps': minw_ev})
         res.stat('W_min_selfweight_' + reg.model, float(min(diag)))
         res.close('W_row_sums_one', float(np.max(np.abs(rowsum - 1.0))), 1.0,
                   1e-9 if not tdep else 1e-6,
@@ -895,7 +929,10 @@ def run_probe_case(case, res):
                                                 frozen=False)
                 else:
                     rows[0] += probe_unrodded(res, reg, dzmax, hg,
-                                              r._is_adiabatic, key, tdep)
+                                              r._is_adiabatic, key, tdep,
+                                              eval_temps=[
+                                                  float(r.inlet_temp),
+                                                  float(a._estimated_T_out)])
             if r.core.model is not None:
                 t_duct = np.array([dassh.mesh_functions.map_across_gap(
                     a.duct_outer_surf_temp, a.active_region._map['duct2gap'])
@@ -1038,4 +1075,7 @@ def classify(v, case):
     if v['monitor'] == 'W_nonneg_weights' and k.get('mech') == \
             'gap_limit_lower_at_actual_state_than_at_evaluation_temps':
         return 'F25'
+    if v['monitor'] == 'W_nonneg_weights' and k.get('mech') == \
+            'lowfid_limit_lower_at_actual_state_than_at_evaluation_temps':
+        return 'F28'
     return None
